@@ -77,7 +77,8 @@ class Walker:
         self.cfg = gen.cfg_of(fx)
         self.rnd = rnd
         self.profile = dict(plans=True, utility=True, payload=self.cfg["payload"] != "void", hooks=2,
-                            overflow=False, cancel=True, react=True)
+                            overflow=False, cancel=True, react=True, serial=True, fills=False)
+        self.stash = []          # saved buffers (lists of bytes), shared by all episodes of this walker
         self.profile.update(profile or {})
         fl = self.fl
         self.regions = [s for s in range(1, fl.n + 1) if fl.st(s)["kind"] != "S"]
@@ -216,7 +217,7 @@ class Walker:
         return out
 
     # ---- the walk ------------------------------------------------------------
-    def episode(self, ex, steps):
+    def episode(self, ex, steps, keep=False):
         """one instance from construction to destruction; returns number of records or None if the executor died"""
         rnd, fl, cfg = self.rnd, self.fl, self.cfg
         manual = cfg["manual"]
@@ -231,6 +232,8 @@ class Walker:
             return r
 
         pre = [] if manual else self.rets() + self.hooks("enter", [], 0, first_activation=True)
+        if self.profile["fills"]:
+            pre = ["fill %d" % rnd.choice([0, 255, 165, 1])] + pre
         rec = call(pre, "new")
         if rec is None:
             return None
@@ -240,13 +243,24 @@ class Walker:
             active = mask_set(post["isA"])
             qlen = len(post["q"])
             if not on:
-                if rnd.random() < 0.1 and n > 1:
+                if rnd.random() < 0.1 and n > 1 and not keep:
                     break
-                rec = call(self.rets() + self.hooks("enter", [], 0, first_activation=True), "enter")
+                if self.profile["serial"] and self.stash and rnd.random() < 0.25:
+                    rec = call(self.rets(), "load " + " ".join(map(str, rnd.choice(self.stash))))
+                else:
+                    rec = call(self.rets() + self.hooks("enter", [], 0, first_activation=True), "enter")
             else:
                 c = rnd.random()
                 room = qlen < fl.cc or self.profile["overflow"]
-                if c < 0.30:
+                if self.profile["serial"] and c < 0.05:
+                    rec = call([], "save")
+                    if rec and rec["buf"] not in self.stash:
+                        self.stash.append(rec["buf"])
+                        if len(self.stash) > 40:
+                            self.stash.pop(rnd.randrange(len(self.stash)))
+                elif self.profile["serial"] and c < 0.10 and self.stash:
+                    rec = call(self.rets() + self.hooks("exit", active, qlen), "load " + " ".join(map(str, rnd.choice(self.stash))))
+                elif c < 0.30:
                     rec = call(self.rets() + self.hooks("update", active, qlen), "update")
                 elif c < 0.40 and self.profile["react"]:
                     rec = call(self.rets() + self.hooks("react", active, qlen), "react")
@@ -271,8 +285,14 @@ class Walker:
                     rec = call(self.rets() + self.hooks("update", active, qlen), "update")
             if rec is None:
                 return None
+        if keep:
+            return n
         rec = call([], "del")
         return None if rec is None else n
+
+    def episode_prefix(self, ex, steps):
+        """like episode(), but leaves the (activated) instance alive"""
+        return self.episode(ex, steps, keep=True)
 
 
 def random_walks(fx, exe, out_path, seed, records, episode_len=60, profile=None):
@@ -411,3 +431,126 @@ def replay_prefix(trace_file, l):
             start = mark            # script lines sent ahead of `new` belong to it
         out.append(ln)
     return out[start:]
+
+
+def replica_walk(fx, exe, out_path, seed, records, profile=None):
+    """authority in slot 0, replica in slot 1 fed with previousTransitions() after every step (C09);
+    whenever the two drift apart in active/resumable prongs the replica is re-synchronised by save/load"""
+    rnd = random.Random(seed)
+    prof = dict(plans=False, serial=False, hooks=1)
+    prof.update(profile or {})
+    w = Walker(fx, rnd, prof)
+    ex = Exec(exe, out_path)
+    manual = w.cfg["manual"]
+
+    def on_slot(i, lines, cmd):
+        ex.send("slot %d" % i)
+        for ln in lines:
+            ex.send(ln)
+        return ex.call(cmd)
+
+    total = 0
+    while total < records:
+        a = on_slot(0, [], "new")
+        b = on_slot(1, [], "new")
+        if a is None or b is None:
+            break
+        if manual:
+            a = on_slot(0, [], "enter")
+            b = on_slot(1, [], "enter")
+        total += 4
+        for _ in range(rnd.randint(10, 60)):
+            if a is None or b is None:
+                break
+            post = a["post"]
+            active = mask_set(post["isA"])
+            qlen = len(post["q"])
+            rets = w.rets()
+            # same value for every draw, so that replay (which draws differently) resolves alike
+            rets = [r for r in rets if not r.startswith("rng ")]
+            if w.profile["utility"]:
+                v = rnd.choice(["0 1", "1 2", "3 4", "1 3"])
+                rets.append("rng " + " ".join([v] * 6))
+            c = rnd.random()
+            if c < 0.35:
+                a = on_slot(0, rets + w.hooks("update", active, qlen), "update")
+            elif c < 0.75 and qlen < w.fl.cc:
+                a = on_slot(0, rets + w.hooks("imm", active, qlen), "imm %s %d %d" % (rnd.choice(w.kinds), w.dest(), w.payload()))
+            elif qlen < w.fl.cc:
+                a = on_slot(0, [], "queue %s %d %d" % (rnd.choice(w.kinds + ["schedule"]), w.dest(), w.payload()))
+            else:
+                a = on_slot(0, rets, "update")
+            total += 1
+            if a is None:
+                break
+            prev = a["post"]["prev"]
+            if a["a"][0] in ("update", "imm") and prev:
+                flat = " ".join("%d %d %s %d" % (t[0], t[1], t[2], t[3]) for t in prev)
+                b = on_slot(1, rets, "replay 0 %d %s" % (len(prev), flat))
+                total += 1
+                if b is None:
+                    break
+            if b["post"]["act"] != a["post"]["act"] or b["post"]["res"] != a["post"]["res"]:
+                s = on_slot(0, [], "save")
+                b = on_slot(1, [], "load " + " ".join(map(str, s["buf"])))
+                total += 2
+        if a is None or b is None:
+            break
+        on_slot(0, [], "del")
+        on_slot(1, [], "del")
+        total += 2
+    crash = ex.dead
+    ex.close()
+    return ex.records, crash
+
+
+def copy_walk(fx, exe, out_path, seed, records, profile=None):
+    """an instance is copied at a random point; original and copy are then driven identically (C10)"""
+    rnd = random.Random(seed)
+    prof = dict(fills=True)
+    prof.update(profile or {})
+    w = Walker(fx, rnd, prof)
+    ex = Exec(exe, out_path)
+    manual = w.cfg["manual"]
+    total = 0
+
+    def on_slot(i, lines, cmd):
+        ex.send("slot %d" % i)
+        for ln in lines:
+            ex.send(ln)
+        return ex.call(cmd)
+
+    while total < records and not ex.dead:
+        ex.send("slot 0")
+        n = w.episode_prefix(ex, rnd.randint(3, 25)) if hasattr(w, "episode_prefix") else None
+        if n is None:
+            break
+        total += n
+        ex.send("fill %d" % rnd.choice([0, 255, 165]))
+        c = on_slot(1, [], "copy 0")
+        total += 1
+        if c is None:
+            break
+        for _ in range(rnd.randint(3, 15)):
+            post = c["post"]
+            if not post["on"]:
+                break
+            active = mask_set(post["isA"])
+            qlen = len(post["q"])
+            lines = w.rets() + w.hooks("update", active, qlen)
+            cmd = rnd.choice(["update", "react", "imm %s %d %d" % (rnd.choice(w.kinds), w.dest(), w.payload()), "reset"])
+            if cmd.startswith("imm") and qlen >= w.fl.cc:
+                cmd = "update"
+            a = on_slot(0, lines, cmd)
+            c = on_slot(1, lines, cmd)
+            total += 2
+            if a is None or c is None:
+                break
+        if ex.dead:
+            break
+        on_slot(1, [], "del")
+        on_slot(0, [], "del")
+        total += 2
+    crash = ex.dead
+    ex.close()
+    return ex.records, crash
